@@ -1,3 +1,4 @@
+import Proofs.C20Pins
 import Proofs.C20Show
 import Proofs.C20Quote
 import Proofs.C04Gen
@@ -151,3 +152,51 @@ example : C20Simple.hasRedirectOp (.binary (.cmp .gt) (.num 1) (.num 2)) = true 
     C20Simple.hasRedirectOp (.binary .add (.group (.binary (.cmp .gt) (.num 1) (.num 2))) (.num 3)) = false := by decide
 
 end GoawkModel.C20
+
+/-! ## Pinned source text (regenerated tie; extract/pins.go, tools/repin.py)
+An edit of one of these functions in /repo breaks the matching obligation: the model below was written from the text
+in `Proofs.C20Pins` and has to be compared with the new text before it is re-pinned. -/
+namespace GoawkModel.Pins.C20
+theorem pin_program_String : Generated.C20Pins.program_String = Expected.program_String := rfl
+theorem pin_stmts_String : Generated.C20Pins.stmts_String = Expected.stmts_String := rfl
+theorem pin_action_String : Generated.C20Pins.action_String = Expected.action_String := rfl
+theorem pin_parenthesize : Generated.C20Pins.parenthesize = Expected.parenthesize := rfl
+theorem pin_quoteString : Generated.C20Pins.quoteString = Expected.quoteString := rfl
+theorem pin_fieldExpr_String : Generated.C20Pins.fieldExpr_String = Expected.fieldExpr_String := rfl
+theorem pin_namedFieldExpr_String : Generated.C20Pins.namedFieldExpr_String = Expected.namedFieldExpr_String := rfl
+theorem pin_unaryExpr_String : Generated.C20Pins.unaryExpr_String = Expected.unaryExpr_String := rfl
+theorem pin_binaryExpr_String : Generated.C20Pins.binaryExpr_String = Expected.binaryExpr_String := rfl
+theorem pin_inExpr_String : Generated.C20Pins.inExpr_String = Expected.inExpr_String := rfl
+theorem pin_condExpr_String : Generated.C20Pins.condExpr_String = Expected.condExpr_String := rfl
+theorem pin_numExpr_String : Generated.C20Pins.numExpr_String = Expected.numExpr_String := rfl
+theorem pin_strExpr_String : Generated.C20Pins.strExpr_String = Expected.strExpr_String := rfl
+theorem pin_regExpr_String : Generated.C20Pins.regExpr_String = Expected.regExpr_String := rfl
+theorem pin_varExpr_String : Generated.C20Pins.varExpr_String = Expected.varExpr_String := rfl
+theorem pin_indexExpr_String : Generated.C20Pins.indexExpr_String = Expected.indexExpr_String := rfl
+theorem pin_assignExpr_String : Generated.C20Pins.assignExpr_String = Expected.assignExpr_String := rfl
+theorem pin_augAssignExpr_String : Generated.C20Pins.augAssignExpr_String = Expected.augAssignExpr_String := rfl
+theorem pin_incrExpr_String : Generated.C20Pins.incrExpr_String = Expected.incrExpr_String := rfl
+theorem pin_callExpr_String : Generated.C20Pins.callExpr_String = Expected.callExpr_String := rfl
+theorem pin_userCallExpr_String : Generated.C20Pins.userCallExpr_String = Expected.userCallExpr_String := rfl
+theorem pin_multiExpr_String : Generated.C20Pins.multiExpr_String = Expected.multiExpr_String := rfl
+theorem pin_getlineExpr_String : Generated.C20Pins.getlineExpr_String = Expected.getlineExpr_String := rfl
+theorem pin_groupingExpr_String : Generated.C20Pins.groupingExpr_String = Expected.groupingExpr_String := rfl
+theorem pin_printStmt_String : Generated.C20Pins.printStmt_String = Expected.printStmt_String := rfl
+theorem pin_printfStmt_String : Generated.C20Pins.printfStmt_String = Expected.printfStmt_String := rfl
+theorem pin_exprStmt_String : Generated.C20Pins.exprStmt_String = Expected.exprStmt_String := rfl
+theorem pin_ifStmt_String : Generated.C20Pins.ifStmt_String = Expected.ifStmt_String := rfl
+theorem pin_forStmt_String : Generated.C20Pins.forStmt_String = Expected.forStmt_String := rfl
+theorem pin_forInStmt_String : Generated.C20Pins.forInStmt_String = Expected.forInStmt_String := rfl
+theorem pin_whileStmt_String : Generated.C20Pins.whileStmt_String = Expected.whileStmt_String := rfl
+theorem pin_doWhileStmt_String : Generated.C20Pins.doWhileStmt_String = Expected.doWhileStmt_String := rfl
+theorem pin_breakStmt_String : Generated.C20Pins.breakStmt_String = Expected.breakStmt_String := rfl
+theorem pin_continueStmt_String : Generated.C20Pins.continueStmt_String = Expected.continueStmt_String := rfl
+theorem pin_nextStmt_String : Generated.C20Pins.nextStmt_String = Expected.nextStmt_String := rfl
+theorem pin_nextfileStmt_String : Generated.C20Pins.nextfileStmt_String = Expected.nextfileStmt_String := rfl
+theorem pin_exitStmt_String : Generated.C20Pins.exitStmt_String = Expected.exitStmt_String := rfl
+theorem pin_deleteStmt_String : Generated.C20Pins.deleteStmt_String = Expected.deleteStmt_String := rfl
+theorem pin_returnStmt_String : Generated.C20Pins.returnStmt_String = Expected.returnStmt_String := rfl
+theorem pin_blockStmt_String : Generated.C20Pins.blockStmt_String = Expected.blockStmt_String := rfl
+theorem pin_list : Generated.C20Pins.pinned = Expected.pinned := rfl
+end GoawkModel.Pins.C20
+-- end of pinned source text
